@@ -32,6 +32,10 @@ CHECKS = {
             "total enumeration of every API form (over, call, apply, new_over, new_apply, into_fn, new_fn, with_history, with_last_value, mixed) x every chunking (all cut sets incl. empty chunks) x every input sequence up to length 4 (5 thorough) for every method and small parameter set, against a twin driven by next only; depth-bounded product exploration (original, identically built twin, clone driven down a different branch, clone continuing) with peek compared after every step; the same for every indicator incl. config/instance over, init_fn, into_fn and the Dyn over",
             "Every way of cutting every short stream into chunks is enumerated, and BFS/DFS branching itself exercises clone independence at every state; outputs are compared bitwise.",
             "Trusted: element-by-element next as the oracle. Sequences of pairs do not implement Sequence, so VWMA/Cross* only have the functional and wrapper forms; methods taking dyn OHLCV only into_fn/with_history/with_last_value."),
+    "C10": ("DESIGN.md §6 C10",
+            "total enumeration of constructor parameter grids (all 256 values of every PeriodType parameter, all 65 536 pairs for TSI and the three reversal detectors, Conv weight lengths around the limits, Renko sizes over a float list x all sources, 15 MA kinds x 256 lengths, every indicator field over all 256 values / float list / 15 kinds x boundary lengths, coupled fields pairwise over boundary values), followed by exhaustive short streams and 600-step deviation streams on every accepted instance; run in TWO builds of the same tree (release; ubcheck = overflow-checks + debug-assertions) whose findings are merged",
+            "Parameter spaces of 256 or 65 536 points are enumerated, not sampled; the ubcheck build turns an arithmetic overflow or a debug assertion - silent in release - into an observable panic of one enumerated case.",
+            "Trusted: rustc's overflow checks / debug assertions as the overflow observer; documented minimal lengths taken from the doc comments (subject registry). Streams of valid finite inputs only."),
     "C11": ("DESIGN.md §6 C11",
             "total enumeration of set(name, text) over every public parameter (= key of the serde-JSON form) x every value text of its type (all 256 integers, float list, source names, 15 kinds x lengths, booleans, garbage) and every foreign name, on static and dynamic configs; depth-bounded exploration of every default indicator comparing result shape and static-vs-dyn results on every stream",
             "Generic, no per-indicator code: the parameter list is derived from the config's own serialized form, so a setter wired to the wrong field, a missing setter, a setter that mutates on error, a wrong size() or a diverging Dyn impl is seen for every indicator and every parameter.",
